@@ -219,9 +219,14 @@ pub fn run_sequence(start: u64, acts: &[Act], tally: &mut Tally) -> CaseResult {
 
 /// Supervision of the own token pass.  `heard_after`: the successor is heard after the k-th pass
 /// (None: never).  `heard_kind` selects what is heard.
-fn supervision_case(heard_after: Option<usize>, heard_kind: u64, delay_frac: u64, obs: &mut Obs) -> CaseResult {
+fn supervision_case(heard_after: Option<usize>, heard_kind: u64, delay_frac: u64, tx_latency_bits: i64, obs: &mut Obs) -> CaseResult {
     let mut w = new_world();
     to_ring_idle(&mut w)?;
+    // a PHY whose transmission ends later than nominal: the slot time counts from the real end
+    w.bus.0.borrow_mut().tx_latency_us[0] = w.bit_us(tx_latency_bits);
+    if tx_latency_bits > 0 {
+        obs.label("phy-with-transmit-latency");
+    }
     w.inject(&token(P, TS), &mut ());
     let mut passes: Vec<i64> = vec![];
     let mut seen = w.trace_len();
@@ -270,11 +275,12 @@ fn supervision_case(heard_after: Option<usize>, heard_kind: u64, delay_frac: u64
         }
     }
     let las: Vec<u8> = w.fdl.inspect_token_ring().iter_active_stations().collect();
-    let gaps_bits: Vec<i64> = passes.windows(2).map(|p| (p[1] - p[0]) * 1_500_000 / 1_000_000_000).collect();
+    // silence between the end of a pass and the start of its repetition (a token is 33 bit times long)
+    let gaps_bits: Vec<i64> = passes.windows(2).map(|p| (p[1] - p[0]) * 1_500_000 / 1_000_000_000 - 33).collect();
     match heard_after {
         None => {
             ensure!(passes.len() == 3, "pass-attempts", "silent successor: {} token passes to it (expected the pass and two repetitions)", passes.len());
-            ensure!(gaps_bits.iter().all(|g| *g > SLOT), "retry-spacing", "token repeated after {:?} bit times (slot time {})", gaps_bits, SLOT);
+            ensure!(gaps_bits.iter().all(|g| *g >= SLOT), "retry-spacing", "token repeated after {:?} bit times of silence (slot time {})", gaps_bits, SLOT);
             ensure!(!las.contains(&P), "silent-successor-kept", "silent successor still in the LAS {:?} after three attempts", las);
             // and the token goes to the new successor (itself)
             let b = w.bus.0.borrow();
@@ -411,25 +417,25 @@ pub fn property() -> Property {
                 obs.sample(|| json!({"las": [5, 6, 7], "dead": 6, "second_successor_misses": i}));
                 supervision3_case(i as usize, obs)
             }),
-            SubCheck::index("supervision", "own token pass: successor silent, or heard after pass 1/2/3 (3 kinds of valid telegram and 3 kinds of undecodable activity x 8 delays)", |i, obs| {
+            SubCheck::index("supervision", "own token pass: successor silent, or heard after pass 1/2/3 (3 kinds of valid telegram and 3 kinds of undecodable activity x 8 delays x PHY with / without transmit latency)", |i, obs| {
                 let ha = match i % 4 {
                     0 => None,
                     k => Some(k as usize - 1),
                 };
                 obs.nontrivial(i);
-                obs.sample(|| json!({"heard_after_pass": ha.map(|k| k + 1), "kind": (i / 4) % 6, "delay_eighths": i / 24}));
-                supervision_case(ha, (i / 4) % 6, i / 24, obs)
+                obs.sample(|| json!({"heard_after_pass": ha.map(|k| k + 1), "kind": (i / 4) % 6, "delay_eighths": (i / 24) % 8, "tx_latency_bits": if i >= 192 { SLOT / 3 } else { 0 }}));
+                supervision_case(ha, (i / 4) % 6, (i / 24) % 8, if i >= 192 { SLOT / 3 } else { 0 }, obs)
             }),
         ],
         plan: |tier| match tier {
             Tier::Quick => vec![
-                Step::Enumerate { kind: "supervision", count: 192 },
+                Step::Enumerate { kind: "supervision", count: 384 },
                 Step::Enumerate { kind: "supervision3", count: 4 },
                 Step::Enumerate { kind: "seq4", count: 2 * 14u64.pow(4) },
                 Step::Pbt { kind: "random", cases: 20_000, max_len: 48 },
             ],
             Tier::Thorough => vec![
-                Step::Enumerate { kind: "supervision", count: 192 },
+                Step::Enumerate { kind: "supervision", count: 384 },
                 Step::Enumerate { kind: "supervision3", count: 4 },
                 Step::Enumerate { kind: "seq5", count: 2 * 14u64.pow(5) },
                 Step::Pbt { kind: "random", cases: 60_000, max_len: 48 },
